@@ -107,7 +107,7 @@ def c09(ctx: Ctx):
             n = collect(ctx, cases, seen)
             log("[gen] %s: %d cases" % (what, n))
             ctx.extra["generator_constants"][cfg] = consts
-        ctx.exhaustive = True
+        ctx.exhaustive = False      # the tier drives seeded slices (VERIF_SEED) next to its exhaustive core: not a complete enumeration of one finite space
         ctx.extra["exhaustive_scope"] = (
             "every BFS run completed.  quick: all documents of <= 2 templates x <= 2 segments design-checked by TLC; run against the code: the "
             "core (plain families under no / a relative server, mixed / enc under none, root under none and relative) + a seeded 1/8 "
